@@ -91,6 +91,7 @@ SPECIFIC = {
     "C08": ["vectors"],
     "C11": ["vectors"],
     "C14": ["vectors"],
+    "C10": ["timesim"],
     "C13": ["twins-cancel"],
     "C15": ["twins-fragment", "twins-stall"],
     # property -> extra groups (generated by tools/gen_*.py, registered in GENERATORS below)
@@ -226,6 +227,20 @@ def gen_vectors(tier, seed, outdir, mqv, root):
     json.dump({"tool_errors": [], "samples": samples}, open(os.path.join(outdir, "meta.json"), "w"))
 
 
+TIMESIM = {"quick": ([0, 1000, 2000, 3000, 5000, 6000, 9000, 10000, 11000, 60000], 60),
+           "thorough": ([0, 1000, 2000, 3000, 4000, 5000, 6000, 7000, 8000, 9000, 10000, 11000, 20000, 60000], 1500)}
+
+
+def gen_timesim(tier, seed, outdir, mqv, root):
+    import replay_time
+    ks, num = TIMESIM[tier]
+    trace, bad, n, steps = replay_time.run(ks, seed, num, 60, outdir, mqv)
+    drift = [{"cfg": "Timers", "behaviour": i, "mismatch": mm[:2]} for i, mm in bad[:20]]
+    json.dump({"tool_errors": [], "drift": drift,
+               "samples": [{"group": "timesim", "keep_alives_ms": ks, "behaviours": n, "steps_replayed": steps, "nonconformant": len(bad)}]},
+              open(os.path.join(outdir, "meta.json"), "w"))
+
+
 def gen_twins(kind):
     def gen(tier, seed, outdir, mqv, root):
         n = TWINS[tier]
@@ -235,7 +250,7 @@ def gen_twins(kind):
     return gen
 
 
-GENERATORS = {"vectors": gen_vectors, "twins-stall": gen_twins("stall"), "twins-cancel": gen_twins("cancel"), "twins-fragment": gen_twins("fragment"), "common": gen_common, "witness": gen_witness, "cover": gen_cover, "sim": gen_sim}
+GENERATORS = {"timesim": gen_timesim, "vectors": gen_vectors, "twins-stall": gen_twins("stall"), "twins-cancel": gen_twins("cancel"), "twins-fragment": gen_twins("fragment"), "common": gen_common, "witness": gen_witness, "cover": gen_cover, "sim": gen_sim}
 
 
 def generate(group, tier, seed, outdir, mqv, root):
